@@ -460,7 +460,8 @@ Section Delivery.
     { unfold init_partition. destruct (N.ltb_spec 0 (nb_block o0)) as [_|G]; [reflexivity|lia]. }
     assert (I2 : init_writer E o0 c = (o0, c)) by reflexivity.
     assert (I3 : push_from_cache E o0 c = (o0, c)).
-    { unfold push_from_cache. destruct (N.eqb_spec (nb_block o0) 0) as [G|_]; [lia|]. reflexivity. }
+    { unfold push_from_cache, cache_replay_blocked. change (r_oti o0) with (Some oti). cbv iota beta.
+      destruct (N.eqb_spec (nb_block o0) 0) as [G|_]; [lia|]. reflexivity. }
     rewrite I1, I2. cbv iota beta. change (r_state o0) with Receiving. cbv iota beta.
     rewrite I3. cbv iota beta. change (r_state o0) with Receiving. cbv iota beta.
     change (r_oti o0) with (Some oti). cbv iota beta. reflexivity.
@@ -1071,7 +1072,8 @@ Section Delivery.
     assert (Hlen : length (r_blocks o3) = m) by (unfold o3; prj; apply repeat_length).
     assert (Hnb : 0 < nb_block o3) by (unfold nb_block; rewrite Hlen; unfold o3; prj; lia).
     assert (I3 : push_from_cache E o3 c3 = (o3, c3)).
-    { unfold push_from_cache. destruct (N.eqb_spec (nb_block o3) 0) as [G|_]; [lia|]. reflexivity. }
+    { unfold push_from_cache, cache_replay_blocked. change (r_oti o3) with (Some oti). cbv iota beta.
+      destruct (N.eqb_spec (nb_block o3) 0) as [G|_]; [lia|]. reflexivity. }
     assert (Hn0 : nth 0 (r_blocks o3) bdec_new = bdec_new) by (unfold o3; prj; apply nth_repeat).
     assert (I4 : write_blocks E (S (length (r_blocks o3))) 0 o3 c3 = (ROk o3, c3)).
     { cbn [write_blocks]. change (r_writer o3) with (Some (w, WOpened)). cbv iota beta.
